@@ -202,6 +202,10 @@ func genC19(c *ctx) {
 			if r.Bool() {
 				cor = body + ",fm1r_"
 			}
+			if r.Bool() {
+				// base64 text made only of line breaks: decodes to zero bytes without an error
+				cor = rng.Pick(r, []string{"fm2_\n,", "fm1r_\r\n,", "fm1a_\n\n,"}) + body
+			}
 			class = "empty-token"
 		case 9:
 			cor = "fo1_x"
